@@ -5,7 +5,10 @@ use white_whale_std::pool_network::asset::{Asset, AssetInfo};
 use crate::state::{store_fee, ALL_TIME_BURNED_FEES};
 use crate::{
     error::VaultError,
-    state::{ALL_TIME_COLLECTED_PROTOCOL_FEES, COLLECTED_PROTOCOL_FEES, CONFIG, LOAN_COUNTER},
+    state::{
+        ALL_TIME_COLLECTED_PROTOCOL_FEES, COLLECTED_PROTOCOL_FEES, CONFIG, LOAN_COUNTER,
+        SETTLED_LOAN_FEES,
+    },
 };
 
 pub fn after_trade(
@@ -33,6 +36,12 @@ pub fn after_trade(
             res.balance
         }
     };
+
+    // fees of loans that completed inside this one were paid into the balance: they cannot pay for this loan too
+    let settled_fees = SETTLED_LOAN_FEES
+        .may_load(deps.storage)?
+        .unwrap_or_default();
+    let new_balance = new_balance.checked_sub(settled_fees)?;
 
     // check that balance is greater than expected
     let protocol_fee =
@@ -69,7 +78,20 @@ pub fn after_trade(
     store_fee(deps.storage, ALL_TIME_COLLECTED_PROTOCOL_FEES, protocol_fee)?;
 
     // deduct loan counter
-    LOAN_COUNTER.update::<_, StdError>(deps.storage, |c| Ok(c.saturating_sub(1)))?;
+    let open_loans =
+        LOAN_COUNTER.update::<_, StdError>(deps.storage, |c| Ok(c.saturating_sub(1)))?;
+
+    // while an enclosing loan is open, remember the fees this loan leaves in the balance (the burn fee is burned)
+    if open_loans == 0 {
+        SETTLED_LOAN_FEES.remove(deps.storage);
+    } else {
+        SETTLED_LOAN_FEES.save(
+            deps.storage,
+            &settled_fees
+                .checked_add(protocol_fee)?
+                .checked_add(flash_loan_fee)?,
+        )?;
+    }
 
     let mut response = Response::new();
     if !burn_fee.is_zero() {
